@@ -437,7 +437,32 @@ def use_port_placeholders(root, rng, p=0.12):
                 x["value"] = E.op("add", x["value"], E.op("mul", E.num(2), b))
 
 
-def gen_hierarchy(rng, p_constrain=0.3, p_placeholder=0.12, p_strip=0.5, **kw):
+def reserved_port_names(root, rng, p=0.1):
+    """A register called `in` (or `lambda`): a port name like any other, although a reserved word of the expression language
+    (its size variable is `#in`).  One input / through port of some routines is renamed, with every mention of it."""
+    parents = {}
+    for nd, _ in _nodes(root):
+        for c in nd["children"]:
+            parents[id(c)] = nd
+    for nd, path in list(_nodes(root)):
+        cands = [q for q in nd["ports"] if q["direction"] in ("input", "through")]
+        if not cands or rng.random() >= p or any(q["name"] in ("in", "lambda") for q in nd["ports"]):
+            continue
+        q = rng.choice(cands)
+        old, new = q["name"], rng.choice(["in", "in", "lambda"])
+        q["name"] = new
+        nd["connections"] = [[new if a == old else a, new if b == old else b] for a, b in nd["connections"]]
+        par = parents.get(id(nd))
+        if par is not None:
+            o, n_ = f"{nd['name']}.{old}", f"{nd['name']}.{new}"
+            par["connections"] = [[n_ if a == o else a, n_ if b == o else b] for a, b in par["connections"]]
+        pi = {"#" + old: "#" + new}
+        nd["ports"] = [dict(x, size=None if x["size"] is None else rename_expr(x["size"], pi)) for x in nd["ports"]]
+        nd["resources"] = [dict(x, value=rename_expr(x["value"], pi)) for x in nd["resources"]]
+        nd["local_variables"] = [[k, rename_expr(v, pi)] for k, v in nd["local_variables"]]
+
+
+def gen_hierarchy(rng, p_constrain=0.3, p_placeholder=0.12, p_strip=0.5, p_reserved=0.1, **kw):
     g = Gen(rng, **kw)
     root, _ = g.build("root", g.max_depth, rng.randint(0, 2), is_root=True)
     # a root WITHOUT parameter links of its own (a plain container) above a subroutine that links a parameter two or more
@@ -448,6 +473,8 @@ def gen_hierarchy(rng, p_constrain=0.3, p_placeholder=0.12, p_strip=0.5, **kw):
         constrain_sizes(root, rng, p_constrain)
     if p_placeholder:
         use_port_placeholders(root, rng, p_placeholder)
+    if p_reserved:
+        reserved_port_names(root, rng, p_reserved)
     return root
 
 
